@@ -107,6 +107,20 @@ Theorem C10_history_reads_contained :
 Proof. exact history_reads_contained. Qed.
 Print Assumptions C10_history_reads_contained.
 
+(* The same when the WORLD changes between calls (World fs cwd = the file system was modified — an entry
+   replaced by a symlink or a hard link, a directory swapped for a symlinked one — and/or the process changed
+   directory): every read event is contained with respect to the file system and cwd in force AT THAT CALL.
+   (A check memoised per tensor would not satisfy this model; the tie runs such histories.) *)
+Theorem C10_world_history_reads_contained :
+  forall kf pf ops fs cwd t l, world_ok fs cwd -> worlds_ok ops ->
+  wrun kf pf ops fs cwd t = Some l ->
+  forall fs' cwd' b ev r, In (fs', cwd', b, ev, r) l ->
+  forall rp ino, In (EvRead rp ino) ev ->
+  b <> [] -> forall rb nb, kstr kf fs' cwd' (parse b) true = Some (rb, nb) ->
+  (exists suf, rp = rb ++ suf) /\ exists nl data, get fs' rp = Some (File ino nl data) /\ (nl <= 1)%N.
+Proof. exact world_history_reads_contained. Qed.
+Print Assumptions C10_world_history_reads_contained.
+
 (* C10_load_sets_base: for EVERY spelling p of the model path, every external tensor of the loaded model
    (graph initializers, node attributes, subgraphs AND model-local functions — the latter since fix b3a8816)
    gets base directory dirname(p) or "." — never empty ... *)
@@ -165,6 +179,15 @@ Example C10_example_load :
   kstr 45 ex_fs [[109]%N] (load_base_up [119]%N) true =                  (* bare "w" with cwd /m -> /m *)
     kstr 45 ex_fs [] (parse ex_base) true.
 Proof. vm_compute. repeat split. Qed.
+
+(* the file /m/w is replaced by a symlink to /o/s between two tofile calls: the second call raises *)
+Definition ex_fs2 : node :=
+  Dir 4 [([109], Dir 2 [([119], Link [46; 46; 47; 111; 47; 115])]); ([111], Dir 2 [([115], File 2 1 [9; 9])])]%N.
+Example C10_example_world_history :
+  option_map (map (fun x => snd x))
+    (wrun 45 100 [TOp ToFile; World ex_fs2 []; TOp ToFile] ex_fs [] (fresh ex_base [119]%N 2 None None))
+  = Some [Ok [7; 7]%N; Ok []; Raise ValueError].
+Proof. vm_compute. reflexivity. Qed.
 
 Example C10_example_history :
   run 45 ex_fs [] 100 [ToBytes; SetBase [47; 111]%N; Numpy; Release; Numpy] (fresh ex_base [119]%N 2 None None) <> None.
